@@ -79,6 +79,15 @@ class BUnit:
                 return any(a)
             return z3.Or(*[z3.BoolVal(x) if isinstance(x, bool) else x for x in a])
         ns["AND"], ns["OR"] = AND, OR
+        self.precond_violations = []
+        def ASSERT(c, text):
+            """a kept assert of the real code = precondition obligation of that function at this call"""
+            if isinstance(c, bool):
+                if not c:
+                    self.precond_violations.append(text)
+                return
+            self.precond_violations.append(("symbolic", c, text))
+        ns["ASSERT"] = ASSERT
         self.branch_script = []
         self.branch_pos = 0
         self.path = []
@@ -101,13 +110,13 @@ class BUnit:
             r = fn()
             yield list(self.path), script, r
 
-    def add_function(self, path, anchor, pyname=None, occurrence=1, self_param=False, pre=None, display=None, cxxname=None):
+    def add_function(self, path, anchor, pyname=None, occurrence=1, self_param=False, pre=None, display=None, cxxname=None, keep_asserts=False):
         c = cut_function(path, anchor, display or pyname, occurrence=occurrence)
         names = params_of(strip_comments(c.header))
         base = pyname or re.search(r"(\w+)\s*\($", strip_comments(c.header)[:strip_comments(c.header).index("(") + 1]).group(1)
         arity = len(names) + (1 if self_param else 0)
         full = "%s__%d" % (base, arity)
-        src, log, dropped = to_python(c, full, self_param=self_param, pre=pre)
+        src, log, dropped = to_python(c, full, self_param=self_param, pre=pre, keep_asserts=keep_asserts)
         self.sources[full] = src
         try:
             exec(compile(src, "<translit:%s>" % full, "exec"), self.ns)
@@ -125,7 +134,7 @@ class BUnit:
                               "M3 (transliteration to symbolic Python; rules logged)", dropped, log)
         return self.ns[full]
 
-    def add_method(self, cls, path, anchor, name, members=(), methods=(), occurrence=1, extra_pre=None, cxxname=None):
+    def add_method(self, cls, path, anchor, name, members=(), methods=(), occurrence=1, extra_pre=None, cxxname=None, keep_asserts=False):
         """transliterate a member function and attach it to python class `cls` (overloads by arity).
         implicit-this rule: listed data members -> self.X, listed sibling methods f( -> self.f("""
         def pre(body):
@@ -140,7 +149,7 @@ class BUnit:
         names = params_of(strip_comments(c.header))
         arity = len(names) + 1
         full = "%s__%s__%d" % (cls.__name__, name, arity)
-        src, log, dropped = to_python(c, full, self_param=True, pre=pre)
+        src, log, dropped = to_python(c, full, self_param=True, pre=pre, keep_asserts=keep_asserts)
         log = log + [dict(rule="implicit-this (members: %s; methods: %s)" % (",".join(members), ",".join(methods)), hits=1, examples=[])]
         self.sources[full] = src
         try:
